@@ -1,6 +1,6 @@
 #!/usr/bin/env python3
 """Re-evaluate every seeded change under /verif/seeded against the current checks (quick tier, scratch copies; /repo is not touched).
-  seed_sweep.py [-j N] [seed ...]
+  seed_sweep.py [-j N] [--seed S] [seed ...]
 For each seed the checks named in its meta.json (detected_by; else the check of its property) are run again by seed_eval.py; the
 sweep reports the seeds that are no longer valid (patch does not apply, suite fails) or no longer detected."""
 import sys, os, json, subprocess, concurrent.futures as cf
@@ -9,6 +9,9 @@ jobs = 4
 if "-j" in args:
     i = args.index("-j"); jobs = int(args[i + 1]); del args[i:i + 2]
 root = "/verif/seeded"
+alt = None
+if "--seed" in args:       # another VERIF_SEED: shows detections that depend on the luck of one random stream; meta.json is left as it was
+    i = args.index("--seed"); alt = args[i + 1]; del args[i:i + 2]
 seeds = args or sorted(os.listdir(root))
 
 
@@ -21,8 +24,14 @@ def one(s):
         cmd += ["--cxxflags", m["cxxflags"]]
     if m.get("tier"):
         cmd += ["--tier", m["tier"]]
-    subprocess.run(cmd, capture_output=True, text=True)
+    keep = open(os.path.join(d, "meta.json")).read()
+    env = dict(os.environ)
+    if alt is not None:
+        env["VERIF_SEED"] = alt
+    subprocess.run(cmd, capture_output=True, text=True, env=env)
     n = json.load(open(os.path.join(d, "meta.json")))
+    if alt is not None:
+        open(os.path.join(d, "meta.json"), "w").write(keep)
     return s, n.get("valid_seed"), n.get("detected_by"), checks
 
 
